@@ -108,9 +108,9 @@ func allSpecs() map[string]*PropSpec {
 	add(&PropSpec{
 		ID:          "C08",
 		Technique:   "unit (dimension) analysis over SSA: UTF-16 units, bytes, runes, 0/1-based lines and columns; mixing, stores into protocol positions, index/slice operands and clamps",
-		Explanation: "units: every integer in the module gets a unit (byte offset / rune count / UTF-16 code unit / line) from a table of sources (len, strings.Index*, utf8.*, lsputil conversions, lexer and AST position fields, protocol.Position fields, semantic-token fields) and the unit is propagated through arithmetic, conversions, phis, calls and struct fields. Reported: arithmetic or comparison between different units (U-MIX), a value stored into a field of another unit, e.g. a rune or byte count into protocol.Position.Character (U-STORE), a wrong-unit argument to a conversion helper (U-ARG), a string indexed by a non-byte quantity (U-INDEX). The column unit of the lexer/AST is read from the lexer's own advance code on every run.",
+		Explanation: "units: every integer in the module gets a unit (byte offset / rune count / UTF-16 code unit / line) from a table of sources (len, strings.Index*, utf8.*, lsputil conversions, lexer and AST position fields, protocol.Position fields, semantic-token fields) and the unit is propagated through arithmetic, conversions, phis, calls and struct fields. Reported: arithmetic or comparison between different units (U-MIX), a value stored into a field of another unit, e.g. a rune or byte count into protocol.Position.Character (U-STORE), a wrong-unit argument to a conversion helper (U-ARG), a string indexed by a non-byte quantity (U-INDEX). The column unit of the lexer/AST is read from the lexer's own advance code on every run. C08-LOADERR: a diagnostic that takes its range from an include.LoadError is built only when the error's kind is not the parse-error kind (whose range is a position inside the included file, not in the open document).",
 		NotDecided:  "that a unit-correct range is the right range (payee column estimated from the date width, fold end taken from the next token); containment in the document as a value-level fact.",
-		Rules:       []func(*Ctx){ruleUnits("module", nil), ruleUnitClamp},
+		Rules:       []func(*Ctx){ruleUnits("module", nil), ruleUnitClamp, ruleLoadErrRange},
 	})
 	add(&PropSpec{
 		ID:          "C17",
@@ -158,9 +158,9 @@ func allSpecs() map[string]*PropSpec {
 	add(&PropSpec{
 		ID:          "C03",
 		Technique:   "table agreement between lexer keyword set and parser switch (AST+types), abstract interpretation of the lexer over byte classes and of the parser over token kinds (progress, resynchronisation)",
-		Explanation: "Only the narrow structural part of this property is decided. T7: every directive keyword the parser has a case for is in the lexer's keyword set, and every directive the property names (account, commodity, include, P, Y, D) has a parser case. T8: every token kind the lexer can emit is tested for by some parser branch. D-EXACT at the point quantities are built (decimal.NewFromString only). L-PROGRESS/P-PROGRESS/L-NEWLINE: tokens cover the input left to right, never span a line break and every loop of lexer and parser consumes input (no supported journal can hang or shift line numbers).",
+		Explanation: "Only the narrow structural part of this property is decided. T7: every directive keyword the parser has a case for is in the lexer's keyword set, and every directive the property names (account, commodity, include, P, Y, D) has a parser case. T8: every token kind the lexer can emit is tested for by some parser branch. D-EXACT at the point quantities are built (decimal.NewFromString only). L-PROGRESS/P-PROGRESS/L-NEWLINE: tokens cover the input left to right, never span a line break and every loop of lexer and parser consumes input (no supported journal can hang or shift line numbers). S-WINDOW: no window x[lo:hi] of a slice kept in a struct field is handed on without a capacity limit (an append to it would overwrite the following window: postings of one transaction replaced by those of the next).",
 		NotDecided:  "MOST OF THE PROPERTY: that the context-free, first-character lexer heuristics classify every spelling of every supported construct correctly (upper-case or digit-leading descriptions, colons in descriptions, CRLF line ends, spaces before the first colon of a virtual account), number-notation normalisation, and the equality of the extracted structure with the written one. These are value semantics of heuristics; no structural fact in reach separates a right heuristic from a wrong one (two known counter-examples on today's tree - CRLF input and an all-caps description yield syntax errors - are invisible to every rule here).",
-		Rules:       []func(*Ctx){ruleT7T8, ruleDecimalExact("internal/parser"), ruleNumberSign, ruleLexer, ruleParser},
+		Rules:       []func(*Ctx){ruleT7T8, ruleDecimalExact("internal/parser"), ruleNumberSign, ruleLexer, ruleParser, ruleSliceWindow},
 	})
 	return m
 }
